@@ -445,8 +445,10 @@ class PeriodicHarness:
         if not isinstance(sub, Closure):
             raise Unsupported("timer: no subscribe function on the result")
         observer = Opaque("observer", "observer")
-        res = it.call(sub, [observer, None], {})
+        res = it.call(sub, [observer, Opaque("scheduler", "subscribe_time_scheduler")], {})
         calls = [e for e in w.log if e[0] == "sched"]
+        self.rec(ctx, uid + "/ticks-on-the-scheduler-the-factory-was-given (the subscribe-time scheduler is only the fallback)", all(e[1] is sched for e in calls),
+                 detail=f"{[(e[1].name, e[2]) for e in calls]}")
         ok = len(calls) == 1 and calls[0][2] == "schedule_periodic"
         self.rec(ctx, uid + "/one-schedule_periodic-call", ok)
         self.rec(ctx, uid + "/emits-nothing-at-subscription", not [e for e in w.log if e[0] == "down"])
@@ -491,8 +493,10 @@ class PeriodicHarness:
         if not isinstance(sub, Closure):
             raise Unsupported("timer: no subscribe function on the result")
         observer = Opaque("observer", "observer")
-        res = it.call(sub, [observer, None], {})
+        res = it.call(sub, [observer, Opaque("scheduler", "subscribe_time_scheduler")], {})
         calls = [e for e in w.log if e[0] == "sched"]
+        self.rec(ctx, uid + "/ticks-on-the-scheduler-the-factory-was-given (the subscribe-time scheduler is only the fallback)", all(e[1] is sched for e in calls),
+                 detail=f"{[(e[1].name, e[2]) for e in calls]}")
         nows = [e[1] for e in w.log if e[0] == "now"]
         ok = len(calls) == 1 and calls[0][2] == "schedule_absolute"
         self.rec(ctx, uid + "/first-tick-scheduled-once-at-an-absolute-time", ok)
